@@ -108,7 +108,16 @@ def correspondence(ctx, V):
     corpus = sorted(os.listdir(corpus_dir)) if os.path.isdir(corpus_dir) else []
     runs = [("corpus", os.path.join(corpus_dir, c)) for c in corpus if c.endswith(".case")] + [("gen", m) for m in modes]
     if ctx.get("replay"):
-        runs = [("corpus", ctx["replay"])]
+        rp = ctx["replay"]
+        try:    # a replay JSON written by Verdict.finish: extract the input record(s) into a case file
+            j = json.load(open(rp))
+            case = j.get("case", {})
+            lines = [case["input"]] if "input" in case else case.get("ops", "").split("\n")
+            rp = os.path.join(vlib.CACHE, "replay_%s.case" % prop)
+            open(rp, "w").write("\n".join(lines) + "\n")
+        except (ValueError, KeyError):
+            pass
+        runs = [("corpus", rp)]
     for kind, m in runs:
         margs = ["--seed", str(seed), "--n", str(n)] + (["--mode", m] if (kind == "gen" and m) else [])
         if flow == "harness_first":
